@@ -106,6 +106,10 @@ def fibStep (st : FibSt) (op : String) (args : List String) : Option (FibSt × S
   | "teardown", [id] => do
     let p ← st.pods.lookup id
     pure ({ host := teardown p st.host, pods := st.pods.filter (·.1 ≠ id) }, "ok")
+  | "legacy", [prio, src, dst, table] => do
+    let r : Rule := { prio := (← prio.toNat?), src := (← optPfx? src), dst := (← optPfx? dst), oif := some "gone", table := (← table.toNat?) }
+    pure ({ st with host := { st.host with rules := st.host.rules ++ [r] } }, "ok")
+  | "clean", [] => pure ({ st with host := { st.host with rules := cleanRules st.host.rules } }, "ok")
   | "sync", ids => do
     let ps ← ids.mapM fun id => st.pods.lookup id
     pure ({ st with host := ruleSync st.host ps }, "ok")
